@@ -1420,15 +1420,22 @@ def regenerate(target):
 
 def step(targets, gen_prop_files, broken):
     """The `translator` step of a check module (modelled on gen/c07.py).  Regenerates the targets; a source that
-    left the subset becomes a broken obligation (the module then searches for a failing input with its own
-    generators).  Returns (evidence dict, the Properties/*Gen*.v files to add to the proof obligations)."""
+    left the subset degrades the tie to correspondence only (see below); a regenerated definition that no longer
+    satisfies the generated = model theorems is a broken obligation (the module then searches for a failing input
+    with its own generators).  Returns (evidence dict, the Properties/*Gen*.v files to add to the proof obligations)."""
     info = {"status": "ok", "targets": []}
     for t in targets:
         r = regenerate(t)
         info["targets"].append(r)
         if r["status"] != "ok":
+            # The source can no longer be translated (it left the subset, or an untranslated pinned part changed
+            # shape).  That is not evidence of a semantic change - most behaviour-preserving refactorings do it too -
+            # so it is NOT reported as a broken obligation: the tie of this run falls back to the differential
+            # correspondence + predicates alone, the evidence says so, and the driver (`check`) compensates by
+            # running the thorough-size generators.  A source that still translates but no longer equals the
+            # model (below) IS a broken obligation.
             info["status"] = "degraded to correspondence only"
-            broken.append(f"translator gen/rust2coq.py ({t}): the source left the translated subset or changed shape: {r['reason']}")
+            info.setdefault("degraded", []).append(f"{t}: {r['reason']}")
     info["theorem_files"] = list(gen_prop_files)
     info["trusted"] = trusted_base(targets)
     if info["status"] == "ok" and gen_prop_files:
